@@ -37,9 +37,12 @@ type cluster struct {
 	up atomic.Bool
 }
 
+// Only the named cluster "c1" (used by the influxDBOut node of scripts sf/qf) can be down; the default
+// cluster, which the batch task sb queries from a goroutine after its start, is always there - a task
+// dying in the background after a successful start is not what C14 is about.
 func (c *cluster) NewNamedClient(name string) (influxdb.Client, error) {
-	if !c.up.Load() {
-		return nil, errors.New("cluster unreachable")
+	if name == "c1" && !c.up.Load() {
+		return nil, errors.New("cluster c1 unreachable")
 	}
 	return nopClient{}, nil
 }
